@@ -40,10 +40,13 @@ CONSTANTS App,         \* application name given to NewJWTHelper ("statshouse")
           Names,       \* MC: fam -> names asked with CanViewMetricName in sessions of that family
           Edits,       \* MC: fam -> set of [create, old, new] asked with CanEditMetric
           ExtraBits,   \* MC: bits tried by the monotonicity invariant
+          Exporting,   \* MC: TRUE = hist carries the full steps and the spec's verdicts (behaviour export)
           MaxOps
 
 VARIABLES now,   \* injected clock of the session
-          sess,  \* [st |-> "none"] | [st |-> "rejected" | "ok" | "healthcheck", mode, tok, prot, ep, fam, ai]
+          sess,  \* [st |-> "none"] | [st |-> "rejected" | "ok" | "healthcheck", mode, tok, prot, ep, fam, ai,
+                 \*   deny, must, carried]  (the last three: what the PROPERTY says about the token as
+                 \*   presented - violated acceptance clauses, must-accept, rights carried)
           last,  \* the last decision taken (observation)
           hist
 
@@ -249,7 +252,8 @@ Init == /\ now = 0
 ParseCore(s, out, ai) ==
     /\ now' = s.now
     /\ sess' = [st |-> out, mode |-> s.mode, tok |-> s.tok, prot |-> s.prot, ep |-> s.ep, fam |-> s.fam,
-                ai |-> IF out = "rejected" THEN NoAI ELSE ai]
+                ai |-> IF out = "rejected" THEN NoAI ELSE ai,
+                deny |-> TokenDeny(s.tok, s.now), must |-> Sufficient(s.tok, s.now), carried |-> Carried(s.tok)]
     /\ last' = [op |-> "parse", out |-> out]
 
 ImplParseAcc(s) == CASE s.mode \in {"local", "insecure"} -> TRUE
@@ -264,17 +268,16 @@ ImplParseAI(s) == IF s.mode \in {"local", "insecure"} THEN ModeAI(s.mode)
 Parse(s) ==
     /\ sess.st = "none"
     /\ ParseCore(s, ImplParseOut(s), ImplParseAI(s))
-    /\ hist' = Append(hist, [a |-> "Parse", mode |-> s.mode, tok |-> s.tok, prot |-> s.prot, now |-> s.now, ep |-> s.ep,
-                             post |-> [impl |-> ImplParseOut(s),
-                                       deny |-> TokenDeny(s.tok, s.now),
-                                       must |-> Sufficient(s.tok, s.now),
-                                       carried |-> Carried(s.tok)]])
+    /\ hist' = Append(hist, IF ~Exporting THEN [a |-> "Parse"] ELSE
+                            [a |-> "Parse", mode |-> s.mode, tok |-> s.tok, prot |-> s.prot, now |-> s.now, ep |-> s.ep,
+                             post |-> [impl |-> sess'.st, deny |-> sess'.deny, must |-> sess'.must,
+                                       carried |-> sess'.carried]])
 
 (* what the property (plus the healthcheck rule) forbids in the current session *)
 SessViewDeny(n) == IF sess.st = "healthcheck" THEN (IF n = HealthMetric THEN {} ELSE {"HealthcheckFallback"})
-                   ELSE IF sess.mode = "token" THEN ViewDeny(Carried(sess.tok), sess.prot, n) ELSE {}
+                   ELSE IF sess.mode = "token" THEN ViewDeny(sess.carried, sess.prot, n) ELSE {}
 SessEditDeny(o, n) == IF sess.st = "healthcheck" THEN {"HealthcheckFallback"}
-                      ELSE IF sess.mode = "token" THEN EditDeny(Carried(sess.tok), sess.prot, o, n) ELSE {}
+                      ELSE IF sess.mode = "token" THEN EditDeny(sess.carried, sess.prot, o, n) ELSE {}
 Live == sess.st \in {"ok", "healthcheck"}
 ViewCore(n, granted) ==
     /\ Live
@@ -282,8 +285,8 @@ ViewCore(n, granted) ==
     /\ UNCHANGED <<now, sess>>
 ViewOp(n) ==
     /\ ViewCore(n, ImplCanView(sess.ai, sess.prot, n))
-    /\ hist' = Append(hist, [a |-> "View", name |-> n,
-                             post |-> [impl |-> last'.granted, deny |-> last'.deny]])
+    /\ hist' = Append(hist, IF ~Exporting THEN [a |-> "View"] ELSE
+                            [a |-> "View", name |-> n, post |-> [impl |-> last'.granted, deny |-> last'.deny]])
 
 EditCore(e, granted) ==
     /\ Live
@@ -292,7 +295,8 @@ EditCore(e, granted) ==
     /\ UNCHANGED <<now, sess>>
 EditOp(e) ==
     /\ EditCore(e, ImplCanEdit(sess.ai, sess.prot, e.old, e.new))
-    /\ hist' = Append(hist, [a |-> "Edit", create |-> e.create, old |-> e.old, new |-> e.new,
+    /\ hist' = Append(hist, IF ~Exporting THEN [a |-> "Edit"] ELSE
+                            [a |-> "Edit", create |-> e.create, old |-> e.old, new |-> e.new,
                              post |-> [impl |-> last'.granted, deny |-> last'.deny]])
 
 Next == /\ Len(hist) < MaxOps
@@ -308,15 +312,15 @@ TokenSess == sess.st # "none" /\ sess.mode \in {"token", "empty"}
 OkTokenSess == sess.st = "ok" /\ sess.mode = "token"
 
 AcceptedTok == TokenSess /\ sess.st = "ok"
-TokenClause(c) == AcceptedTok => (sess.mode = "token" /\ c \notin TokenDeny(sess.tok, now))
+TokenClause(c) == AcceptedTok => (sess.mode = "token" /\ c \notin sess.deny)
 AcceptOnlyEdDSA            == TokenClause("AcceptOnlyEdDSA")
 AcceptOnlySignedByNamedKey == TokenClause("AcceptOnlySignedByNamedKey")
 AcceptOnlyIssuedByVkuth    == TokenClause("AcceptOnlyIssuedByVkuth")
 AcceptOnlyForUser          == TokenClause("AcceptOnlyForUser")
 AcceptOnlyUnexpired        == TokenClause("AcceptOnlyUnexpired")
 AcceptOnlyStarted          == TokenClause("AcceptOnlyStarted")
-AcceptValid       == (TokenSess /\ sess.mode = "token" /\ Sufficient(sess.tok, now)) => sess.st = "ok"
-OnlyCarriedBits   == OkTokenSess => Within(sess.ai, Carried(sess.tok))
+AcceptValid       == (TokenSess /\ sess.mode = "token" /\ sess.must) => sess.st = "ok"
+OnlyCarriedBits   == OkTokenSess => Within(sess.ai, sess.carried)
 (* without an accepted token nothing is granted, except that the healthcheck endpoint may read
    its one metric *)
 HealthcheckFallback ==
@@ -341,9 +345,9 @@ EditKeepsRawTags          == EditClause("EditKeepsRawTags")
 
 (* Internal consistency of the mechanism (model checking only: they speak about Impl...) *)
 AdminEditsAll     == (OkTokenSess /\ last.op = "edit" /\ sess.ai.admin) => last.granted
-NoBitsNoRights    == (OkTokenSess /\ AppBits(sess.tok) = {} /\ last.op \in {"view", "edit"}) => ~last.granted
+NoBitsNoRights    == (OkTokenSess /\ last.op \in {"view", "edit"} /\ AppBits(sess.tok) = {}) => ~last.granted
 ViewExact         == (OkTokenSess /\ last.op = "view" /\ ~sess.ai.admin) => (last.granted = (last.deny = {}))
-AIExact           == OkTokenSess => sess.ai = Carried(sess.tok)
+AIExact           == OkTokenSess => sess.ai = sess.carried
 (* adding any bit of the universe never removes a right *)
 Monotone ==
     (OkTokenSess /\ last.op \in {"view", "edit"} /\ last.granted) =>
